@@ -431,10 +431,12 @@ class C12:
             for route in ("TorrentFile", "Assembler2", "Assembler3", "cli1", "cli2", "config"):
                 if rng.random() < (0.45 if tier == "quick" else 0.8):
                     cases.append({"kind": "route", "route": route, "value": v,
+                                  "pl_spelling": rng.choice([None, "equals", "abbrev"]) if route.startswith("cli") else None,
                                   "as_str": route.startswith("cli") or route == "config" or rng.random() < 0.3})
         for s in rstrs:
             for route in ("TorrentFile", "cli1", "config"):
-                cases.append({"kind": "route", "route": route, "value": s, "as_str": True})
+                cases.append({"kind": "route", "route": route, "value": s, "as_str": True,
+                              "pl_spelling": rng.choice([None, "equals"]) if route.startswith("cli") else None})
         for b in range(4 if tier == "quick" else 24):
             cases.append({"kind": "auto", "seed": rng.randrange(1 << 30), "n": 25000})
         for route in ("TorrentFile", "Assembler2", "cli1", "cli2", "TorrentFileV2", "config"):
@@ -605,7 +607,9 @@ class C12:
                     with open(out, "rb") as fd:
                         oc.raw = fd.read()
             else:
-                oc = drive.create(route, root, out, piece_length=arg, progress=0)
+                oc = drive.create(route, root, out, piece_length=arg, progress=0, pl_spelling=case.get("pl_spelling"))
+                if case.get("pl_spelling") and route.startswith("cli"):
+                    counters["cli_piece_length_spelled_" + case["pl_spelling"]] = 1
             judge_log("route")
             given = arg not in (0, None, "")          # library: falsy means "not given"
             if isinstance(arg, str) and route == "config" and arg.strip() == "":
@@ -698,6 +702,19 @@ def _c20_argv(case, path, out):
     scalars.append(["--prog", "0"])
     import random
     rng = random.Random(case["order_seed"])
+    sp = case.get("cli_spelling")
+    if sp:
+        # other spellings argparse gives every option: --opt=value, unambiguous abbreviations of long options
+        abbr = {"--private": "--priv", "--source": "--sou", "--comment": "--comm", "--piece-length": "--piece-l",
+                "--meta-version": "--meta-v", "--out": "--ou", "--align": "--ali", "--prog": "--prog"}
+        for g in scalars:
+            how = sp if sp != "mixed" else rng.choice(["equals", "abbrev", "both", None])
+            if not g[0].startswith("--") or how is None:
+                continue
+            if how in ("abbrev", "both"):
+                g[0] = abbr.get(g[0], g[0])
+            if how in ("equals", "both") and len(g) == 2:
+                g[:] = [g[0] + "=" + g[1]]
     rng.shuffle(lists)
     rng.shuffle(scalars)
     pos = case["pos"]
@@ -724,7 +741,9 @@ def _c20_argv(case, path, out):
         b = lists[1:] + scalars[max(1, len(scalars) // 2):]
         rng.shuffle(b)
         return head + flat(li) + flat(sc) + [path] + flat(b), "middle"
-    # last: path after a scalar group
+    # last: path after a scalar group (or after the conventional end-of-options marker)
+    if case.get("double_dash"):
+        return head + flat(scalars) + flat(lists) + ["--", path], "last"
     return head + flat(lists) + flat(scalars) + [path], "last"
 
 
@@ -837,6 +856,7 @@ class C20:
                 "ini_first_inline": rng.random() < 0.25, "ini_location": rng.choice(["path", "path", "cwd", "home"]),
                 "config_prelude": rng.random() < 0.3,
                 "spell": rng.choice([None, None, "trailing-slash", "double-sep", "dot-segment", "dotdot"]), "cmdword": rng.choice(["create", "new"]),
+                "cli_spelling": rng.choice([None, None, "equals", "abbrev", "mixed"]), "double_dash": rng.random() < 0.3,
                 "lib_path_kw": rng.choice(["path", "content"]), "lib_pl_str": rng.random() < 0.5}
 
     @staticmethod
@@ -893,6 +913,10 @@ class C20:
                     cli_path = os.path.join(root, "..", base_) if os.path.isdir(root) else root
                 if sp and cli_path != root:
                     counters["cli_path_not_normalised"] = 1
+                if case.get("cli_spelling"):
+                    counters["cli_option_spelling_" + case["cli_spelling"]] = 1
+                if case.get("double_dash") and case["pos"] == "last":
+                    counters["cli_double_dash_before_path"] = 1
                 argv, orderclass = _c20_argv(case, cli_path, outarg)
                 oc = drive.cli_execute(argv)
             elif route == "config":
